@@ -155,6 +155,28 @@ def _client_case(ops, impl):
             if any(w != t[3] for w in wr) or len(wr) > 1:
                 st["viol"].append((i, "C11", "Start wrote something other than the message once"))
             wr = []   # the write of a Start / Indicate belongs to that call
+        # L2: is the collector suspended inside ClientAgent.Start of a retransmission (op blockagent)?
+        if t[1] == "blockagent":
+            st["agent_block"] = t[2]
+        if t[1] == "tick2":
+            st["asusp"] = st.pop("agent_block", None) if int(f.get("blocked", "0")) > 0 else None
+            st.pop("agent_block", None)
+            st["asusp_done"] = False
+        if st.get("asusp") and t[1] not in ("tick2", "release"):
+            if any(c_.split(":", 2)[1] == st["asusp"] and not c_.startswith("fb:") for c_ in cb):
+                st["asusp_done"] = True
+        for w in wr:
+            wid = w[16:40]
+            if not any(s_["id"] == wid and s_["ok"] and h not in st["calls"] for h, s_ in st["started"].items()):
+                late = [h for h, s_ in st["started"].items() if s_["id"] == wid and s_["ok"] and h in st["calls"] and s_["raw"] == w]
+                if late:
+                    if t[1] == "release" and st.get("asusp") == wid and st.get("asusp_done"):
+                        st["viol"].append((i, "C11", f"request of h{late[-1]} written again after the transaction had completed: the "
+                                           "response overtook a retransmission that was inside ClientAgent.Start"))
+                    else:
+                        st["viol"].append((i, "C11", f"request of h{late[-1]} written again after the transaction had completed"))
+        if t[1] == "release":
+            st["asusp"] = None
         for w in wr:
             wid = w[16:40]
             for h, s_ in st["started"].items():
@@ -465,6 +487,8 @@ PROPS = {
                      "Stun.C10.closed_no_invocation", "Stun.C10L2.step2_l1", "Stun.C10L2.run2_l1", "Stun.C10L2.k1_history",
                      "Stun.C10L2.k1_history_other_start_untouched", "Stun.C10L2.blocked_write_failure_alone",
                      "Stun.C10L2.f12_start_error_after_handler_ran", "Stun.C10L2.start_blocked_failure_alone",
+                     "Stun.C10L2.k1b_history", "Stun.C10L2.agent_start_failure_alone", "Stun.C10L2.agent_start_ok_alone",
+                     "Stun.Client.retransmit_split2",
                      "Stun.Client.retransmit_split", "Stun.Client.start_split", "Stun.ClientProofs.run_spec", "Stun.ClientProofs.run_eq",
                      "Stun.ClientProofs.callback_spec", "Stun.ClientProofs.retransmit_spec"],
         "streams": ["client-hist"], "level": "proof", "predicate": pred_client("C10"),
@@ -477,9 +501,10 @@ PROPS = {
                        "Interleavings inside one event (L2, known finding K1) are not expressible at this level.",
     },
     "C11": {
-        "modules": ["Stun.Properties.C11"],
+        "modules": ["Stun.Properties.C11", "Stun.Properties.C10L2"],
         "theorems": ["Stun.C11.writes_bit_identical", "Stun.C11.retransmit_guard", "Stun.C11.no_retransmit_before_deadline",
-                     "Stun.C11.nextTimeout_formula", "Stun.C11.setRTO_only_later", "Stun.C11.no_retransmit_when_disabled"],
+                     "Stun.C11.nextTimeout_formula", "Stun.C11.setRTO_only_later", "Stun.C11.no_retransmit_when_disabled",
+                     "Stun.C10L2.run2_l1", "Stun.C10L2.f14_write_after_completion"],
         "streams": ["client-hist"], "level": "proof", "predicate": pred_client("C11"),
         "rule": CLIENT_RULE + "; message sizes 20..65535 incl. both sides of the former 2048-byte scratch buffer; the "
                 "caller's message is overwritten after every Start",
